@@ -980,5 +980,16 @@ func derived() string {
 		num, add, den = m[1], m[2], m[3]
 	}
 	fmt.Fprintf(&b, "def voteThresholdNum : Int := %s\ndef voteThresholdAdd : Int := %s\ndef voteThresholdDen : Int := %s\n", num, add, den)
+	onum, oadd, oden := "0", "0", "1"
+	if m := regexp.MustCompile(`^sdk\.NewInt\((\d+)\)$`).FindStringSubmatch(facts["oracle_threshold"]); m != nil {
+		onum = m[1]
+	}
+	if m := regexp.MustCompile(`^types\.AttestationVotesPowerThreshold\.Mul\(totalPower\)\.Quo\(sdk\.NewInt\((\d+)\)\)$`).FindStringSubmatch(facts["oracle_required"]); m != nil {
+		oden = m[1]
+	}
+	if m := regexp.MustCompile(`^types\.AttestationVotesPowerThreshold\.Mul\(totalPower\)\.Add\(sdk\.NewInt\((\d+)\)\)\.Quo\(sdk\.NewInt\((\d+)\)\)$`).FindStringSubmatch(facts["oracle_required"]); m != nil {
+		oadd, oden = m[1], m[2]
+	}
+	fmt.Fprintf(&b, "def oracleThresholdNum : Int := %s\ndef oracleThresholdAdd : Int := %s\ndef oracleThresholdDen : Int := %s\n", onum, oadd, oden)
 	return b.String()
 }
